@@ -136,7 +136,8 @@ SWAP = {"Lt": "Gt", "Gt": "Lt", "Le": "Ge", "Ge": "Le", "Eq": "Eq", "Ne": "Ne"}
 
 
 class Engine:
-    def __init__(self, fn, rules=(), init_flags=(), init_ss=None, param_exprs=None, max_states=400000, name=None):
+    def __init__(self, fn, rules=(), init_flags=(), init_ss=None, param_exprs=None, max_states=400000, name=None, record_pc=False):
+        self.record_pc = record_pc
         self.fn = fn
         self.bi = BodyInfo(fn)
         self.live = self.bi.live_in()
@@ -362,7 +363,11 @@ class Engine:
                 st = st.replace(ss=fz(ss))
             return st
         if k == "tblwrite":
-            emp = frozenset((kb, v) for kb, v in st.emp if kb != ev.box and st.distinct(kb, ev.box)) if ev.box is not None else frozenset()
+            if ev.box is not None:
+                emp = frozenset((kb, v) for kb, v in st.emp if kb[0] == "loc" or (kb != ev.box and st.distinct(kb, ev.box)))
+            else:
+                # a write to a local container (trace map / visited set): link tables are unaffected
+                emp = frozenset((kb, v) for kb, v in st.emp if kb[0] != "loc")
             return st.replace(emp=emp)
         if k == "borrow":
             return st.replace(guards=st.guards | {(ev.guard, ev.box, ev.mut)})
@@ -371,7 +376,7 @@ class Engine:
         if k in ("user", "handle_drop", "indirect"):
             # arbitrary user code: live counts and tables of any box may change; dead stays dead
             ss = frozenset((kb, v) for kb, v in st.ss if v <= DEAD)
-            return st.replace(ss=ss, emp=frozenset(), fresh=frozenset())
+            return st.replace(ss=ss, emp=frozenset((kb, v) for kb, v in st.emp if kb[0] == "loc"), fresh=frozenset())
         if k == "moveout" and ev.field == "links":
             return st.replace(emp=frozenset((kb, v) for kb, v in st.emp if kb != ev.box))
         return st
@@ -392,7 +397,7 @@ class Engine:
         if cls == "inc":
             out = set()
             for c in old:
-                out |= {"Z": set("O"), "O": set("M"), "M": set("MU"), "U": set("Z")}[c]
+                out |= {"Z": set("O"), "O": set("M"), "M": set("M"), "U": set("Z")}[c]
             return frozenset(out)
         return ALL
 
@@ -452,9 +457,23 @@ class Engine:
             root = iter_table(inner[3][0])
             if root is not None and st.empty(root) is True:
                 return None
+            for r in self.rules:
+                h = getattr(r, "on_next_some", None)
+                if h:
+                    x = h(self, st, inner)
+                    if x is False:
+                        return None
+                    if x is not None:
+                        st = x
         return st
 
     def assume(self, st, c, truth, b):
+        r = self.assume_(st, c, truth, b)
+        if r is not None and self.record_pc and not is_const(c):
+            r = r.replace(flags=r.flags | {("pc", c, truth)})
+        return r
+
+    def assume_(self, st, c, truth, b):
         """Refine `st` with boolean expression `c` == truth; None if infeasible."""
         if is_const(c):
             return st if (c[1] == "1") == truth else None
@@ -485,6 +504,38 @@ class Engine:
                                 if x2 is not None:
                                     st = x2
                         return st
+                if x[0] == "call" and x[2].startswith("hashbrown::") and x[2].endswith("::len") and x[3] and table_of(x[3][0]) is not None:
+                    tb = table_of(x[3][0])
+                    cls = classes_for(op, y[1], truth)
+                    val_empty = None
+                    if cls == frozenset("Z"):
+                        val_empty = True
+                    elif "Z" not in cls:
+                        val_empty = False
+                    if val_empty is not None:
+                        cur = st.empty(tb)
+                        if cur is not None and cur != val_empty:
+                            return None
+                        emp = dict(st.emp)
+                        emp[tb] = val_empty
+                        st = st.replace(emp=fz(emp))
+                        for r in self.rules:
+                            h = getattr(r, "on_empty_known", None)
+                            if h:
+                                x2 = h(self, st, tb, val_empty, b)
+                                if x2 is not None:
+                                    st = x2
+                    return st
+            # dangling-sentinel test on a pointer address
+            if op in ("Eq", "Ne") and is_const(y, MAX) and x[0] == "cast" and x[1] == "PtrToInt":
+                is_s = (op == "Eq") == truth
+                for r in self.rules:
+                    h = getattr(r, "on_ptr_sentinel", None)
+                    if h:
+                        x2 = h(self, st, x[2], is_s, b)
+                        if x2 is not None:
+                            st = x2
+                return st
             # pointer comparisons
             if op in ("Eq", "Ne"):
                 same = (op == "Eq") == truth
@@ -496,6 +547,8 @@ class Engine:
                 return self.ptr_rel(st, c[3][0], c[3][1], truth)
             if d.endswith("::is_empty") and c[3]:
                 tb = table_of(c[3][0])
+                if tb is None and d.startswith("hashbrown::"):
+                    tb = ("loc", mk_deref(c[3][0]))
                 if tb is not None:
                     cur = st.empty(tb)
                     if cur is not None and cur != truth:
@@ -503,6 +556,12 @@ class Engine:
                     emp = dict(st.emp)
                     emp[tb] = truth
                     st = st.replace(emp=fz(emp))
+                    for r in self.rules:
+                        h = getattr(r, "on_empty_known", None)
+                        if h:
+                            x2 = h(self, st, tb, truth, b)
+                            if x2 is not None:
+                                st = x2
             for r in self.rules:
                 h = getattr(r, "on_assume_call", None)
                 if h:
@@ -563,6 +622,12 @@ class Engine:
     def do_call(self, b, t, st, val):
         callee = t["callee"]
         args = [self.bi.operand(a, val) for a in t["args"]]
+        for r in self.rules:
+            h = getattr(r, "on_site_reexec", None)
+            if h:
+                x = h(self, st, b)
+                if x is not None:
+                    st = x
         st = self.kill_site(st, b)
         res = self.bi.call_value(b, t, val)
         evs, diverges = self.call_events(b, t, callee, args, res, st)
@@ -691,6 +756,10 @@ class Engine:
             evs.extend(self.drop_events(b, targ, v, t))
             for ev in evs:
                 ev.a["via"] = d
+            return evs, False
+        if d == "core::mem::ManuallyDrop::<T>::new" and args:
+            targ = (callee.get("targs") or [{}])[0]
+            A("forget", value=args[0], ty=targ.get("s"), adt=targ.get("adt") if targ.get("peel", 0) == 0 else None, how="ManuallyDrop")
             return evs, False
         if d == "core::mem::forget" and args:
             targ = (callee.get("targs") or [{}])[0]
